@@ -89,6 +89,11 @@ pub fn scenario(t: &mut Tape, strict_only: bool, dup: u32) -> (GProg, std::colle
         if inherited && t.chance(2, 3) && !kinds.contains(&0) {
             kinds.insert(0, 0);
         }
+        // a name that is not inherited, defined on the module: readers below must not see it
+        if !inherited && t.chance(1, 4) && !kinds.contains(&0) {
+            kinds.insert(0, 0);
+            features.insert("undeclared-name-defined-on-the-module");
+        }
         for k in kinds {
             let (pattern, cap) = DEFINERS[k];
             let c = |ids: &mut Ids| Expr::Capture { id: ids.next(), name: cap.to_string() };
@@ -147,6 +152,25 @@ pub fn scenario(t: &mut Tape, strict_only: bool, dup: u32) -> (GProg, std::colle
         body: vec![Stmt::Let { id: ids.next(), var: VarRef::Scoped { id: ids.next(), scope: Expr::Capture { id: ids.next(), name: "a".into() }, name: "obj".into() }, value: Expr::Capture { id: ids.next(), name: "o".into() } }],
         pool: usize::MAX,
     });
+    // a definition whose scope is a local holding a node fetched from another scoped variable:
+    // `let target = @a.obj  let target.vialink = ..` puts `vialink` on the object identifier
+    let via_link_def = with_links && t.chance(1, 2);
+    let mut via_link_stanzas: Vec<Item> = vec![];
+    if via_link_def {
+        features.insert("definition-through-stored-link");
+        let fetch = Expr::Scoped { id: ids.next(), scope: Box::new(Expr::Capture { id: ids.next(), name: "a".into() }), name: "obj".into() };
+        let body = vec![
+            Stmt::Let { id: ids.next(), var: VarRef::Plain { id: ids.next(), name: "target".into() }, value: fetch },
+            Stmt::Let { id: ids.next(), var: VarRef::Scoped { id: ids.next(), scope: Expr::Var { id: ids.next(), name: "target".into() }, name: "vialink".into() }, value: Expr::Call { func: "source-text".into(), args: vec![Expr::Capture { id: ids.next(), name: "a".into() }] } },
+        ];
+        via_link_stanzas.push(Item::Stanza(Stanza { id: ids.next(), query: "(attribute attribute: (identifier) @a)".into(), captures: vec![Cap { name: "a".into(), quant: Quant::One }], body, pool: usize::MAX }));
+        let read = Stmt::AttrNode {
+            id: ids.next(),
+            node: Expr::Scoped { id: ids.next(), scope: Box::new(Expr::Capture { id: ids.next(), name: "o".into() }), name: "n".into() },
+            attrs: vec![Attr { name: "via_link".into(), value: Some(Expr::Scoped { id: ids.next(), scope: Box::new(Expr::Capture { id: ids.next(), name: "o".into() }), name: "vialink".into() }) }],
+        };
+        via_link_stanzas.push(Item::Stanza(Stanza { id: ids.next(), query: "(attribute object: (identifier) @o)".into(), captures: vec![Cap { name: "o".into(), quant: Quant::One }], body: vec![read], pool: usize::MAX }));
+    }
     // phased order (strict only): outer definitions, readers, nearer definitions and late
     // assignments, readers again - a read may come before the definition that should win later
     let phased = strict_only && t.chance(1, 2);
@@ -193,6 +217,7 @@ pub fn scenario(t: &mut Tape, strict_only: bool, dup: u32) -> (GProg, std::colle
         if with_links {
             stanzas.push(link);
         }
+        stanzas.extend(via_link_stanzas);
         let second: Vec<Item> = if reader_stanzas.len() > first_batch { reader_stanzas.split_off(first_batch) } else { vec![] };
         stanzas.extend(reader_stanzas);
         stanzas.extend(nearer.into_iter().map(|(s, _)| s));
@@ -206,6 +231,7 @@ pub fn scenario(t: &mut Tape, strict_only: bool, dup: u32) -> (GProg, std::colle
     if with_links {
         stanzas.push(link);
     }
+    stanzas.extend(via_link_stanzas);
     stanzas.extend(reader_stanzas);
     if strict_only && t.chance(1, 2) {
         // a few swaps
@@ -291,7 +317,7 @@ pub fn case(tape: &[u32]) -> CaseOutcome {
                 (Outcome::Err(re), LibRun::Ok(g)) => {
                     // strict must fail exactly when the model does; lazy only for causes that do
                     // not depend on evaluation order (a variable may be defined by a later stanza)
-                    if !lazy || re.kind.order_independent() {
+                    if !lazy || failure_binds_lazy(&program.gen.prog, re) {
                         return CaseOutcome::Fail(Failure::new(
                             format!("C04:{}:missing-error:{:?}", mode, re.kind),
                             format!("the run must fail ({:?}: {}), {} execution returned a graph ({})", re.kind, re.msg, mode, g.summary()),
